@@ -118,3 +118,542 @@ PROPS['C04'] = dict(
     outside='depths not listed for the tier',
     assumptions=['plane oracle: integer vertex coordinates in units of 1/nside with the polar-cap identifications (harness/common/oracles.rs)'],
 )
+
+# ------------------------------------------------------------------------------------------- C10
+_c10 = []
+_RN = ['npc', 'eqr', 'spc']
+for _d in range(30):
+    for reg in (0, 1, 2):
+        polar = reg != 1
+        if polar:
+            tiers = Q if _d <= 2 else (T if _d <= 8 else ())
+        else:
+            tiers = Q if _d in (0, 1, 2, 29) else T
+        if tiers:
+            to = 1200 if 'quick' in tiers else 3600
+            _c10.append(H('c10_ring_%s_d%d' % (_RN[reg], _d), 'k_c10_ring(%d, %d);' % (_d, reg), tiers=tiers,
+                          timeout=to, mem_gb=4, unwind=max(4, _d + 1),
+                          inputs=[('r', 'u64')], replay='c10_ring', replay_const={'depth': _d}, covers=['region non empty'],
+                          domain='depth %d, every RING index of the %s region (and its successor)' % (_d, _RN[reg])))
+            _c10.append(H('c10_nested_%s_d%d' % (_RN[reg], _d), 'k_c10_nested(%d, %d);' % (_d, reg), tiers=tiers,
+                          timeout=to, mem_gb=4, unwind=max(4, _d + 1),
+                          inputs=[('h', 'u64')], replay='c10_nested', replay_const={'depth': _d}, covers=['region non empty'],
+                          domain='depth %d, every NESTED cell of base cells %d..%d' % (_d, 4 * reg, 4 * reg + 3)))
+            _c10.append(H('c10_centres_%s_d%d' % (_RN[reg], _d), 'k_c10_centres(%d, %d);' % (_d, reg), tiers=tiers,
+                          timeout=to, mem_gb=4, unwind=max(4, _d + 1),
+                          inputs=[('r', 'u64')], replay='c10_centres', replay_const={'depth': _d}, covers=['region non empty'],
+                          domain='depth %d, every RING index of the %s region' % (_d, _RN[reg])))
+# deep polar caps: ring ends (first / last T cells) of windows of W consecutive rings (ring index counted from the pole)
+_C10_W, _C10_T = 64, 4
+for _d in (26, 29):
+    n = 1 << _d
+    for k0 in (n - _C10_W, 47453132 - _C10_W // 2, (n // 4) * 3):
+        if 0 < k0 < n:
+            for south in (0, 1):
+                _c10.append(H('c10_ringends_%s_d%d_k%d' % ('s' if south else 'n', _d, k0),
+                              'k_c10_ringends(%d, %d, %d, %d, %s);' % (_d, k0, _C10_W, _C10_T, 'true' if south else 'false'),
+                              tiers=Q if (_d == 29 and k0 == (1 << 29) - _C10_W) else T, timeout=1200, mem_gb=6, unwind=max(4, _d + 1),
+                              inputs=[('r', 'u64')], replay='c10_ring', replay_const={'depth': _d},
+                              covers=['last cell of the last ring of the window', 'first cell of the first ring of the window'],
+                              domain='depth %d, %s polar cap: first and last %d cells of each of the rings %d..%d from the pole'
+                                     % (_d, 'south' if south else 'north', _C10_T, k0, k0 + _C10_W - 1)))
+PROPS['C10'] = dict(
+    inject=[dict(host='src/nested/mod.rs', mod='verif_c10', parts=['props/c10.rs', 'kani/c10.rs'])],
+    harnesses=_c10,
+    functions=['Layer::to_ring', 'Layer::from_ring', 'Layer::decode_hash', 'Layer::build_hash_from_parts', 'ring::triangular_number_x4',
+               'ring::polar_cap_ring_index', 'ring::center_of_projected_cell', 'Layer::center_of_projected_cell'],
+    bounds={'quick': 'polar caps: every index, depths 0..2; equatorial region: every index, depths 0,1,2,29 (the successor of the last equatorial '
+                     'index is the first south-polar index, i.e. the mirror image of the last cell of the last polar ring)',
+            'thorough': 'polar caps: every index, depths 0..8; equatorial region: every index, all 30 depths'},
+    outside='polar-cap indices at depths above the listed ones, except the ring-index lemma (see c10_isqrt_* harnesses)',
+    assumptions=['f64::sqrt is the IEEE correctly rounded square root (CBMC model, exact)'],
+)
+
+# ------------------------------------------------------------------------------------------- C07 / C08 (BMOC operators)
+_OPN = {0: 'not', 1: 'and', 2: 'or', 3: 'xor'}
+
+
+def _ops_inputs(prefix):
+    r = []
+    for k in range(4):
+        r += [('%s_d%d' % (prefix, k), 'u8'), ('%s_h%d' % (prefix, k), 'u64'), ('%s_f%d' % (prefix, k), 'bool')]
+    return r
+
+
+# per-loop unwinding bounds, keyed 'function#k' (k-th loop of the function in source order, resolved to CBMC loop ids from
+# the goto binary at run time). Derived from the code for operands of at most na / nb entries and depth_max <= dm.
+# Loops not listed fall under the (small) global unwind of the harness; unwinding assertions are on, so a bound that is too
+# small makes the harness inconclusive, never a pass.
+def _bmoc_out_max(na, nb, dm, op):
+    if op == 0:
+        return 11 + (3 * dm + 1) * max(na, 0) + 1
+    if op == 1:
+        return max(na + nb - 1, 0)
+    return na + nb + 3 * dm * max(min(na, nb), 0)   # each low-res/high-res overlap adds at most 3 cells per level
+
+
+def _bmoc_unwindset(na, nb, dm, op):
+    B = 'nested::bmoc::'
+    L = _bmoc_out_max(na, nb, dm, op)
+    u = {'verif_common::Ops::valid#0': 6, 'verif_common::Ops::all_full#0': 6, 'verif_common::Ops::packed#0': 6,
+         'verif_common::Ops::state#0': 6, 'verif_common::spec_scan#0': L + 1}
+    if op == 0:
+        u.update({B + 'BMOC::not#0': 13, B + 'BMOC::not#1': max(na, 1), B + 'BMOC::not#2': 13,
+                  B + 'go_down#0': dm + 2, B + 'go_down#1': 13, B + 'go_up#0': dm + 1, B + 'go_up#1': 4})
+    elif op == 1:
+        u.update({B + 'BMOC::and#0': na + nb + 1})
+    else:
+        f = 'or' if op == 2 else 'xor'
+        u.update({B + 'BMOC::%s#0' % f: na + nb + 1, B + 'BMOC::%s#1' % f: na + 1, B + 'BMOC::%s#2' % f: nb + 1,
+                  B + 'BMOC::not_in_cell_4_%s#0' % f: max(na, nb) + 1,
+                  B + 'consume_while_overlapped#0': max(na, nb) + 1, B + 'consume_while_overlapped_and_partial#0': max(na, nb) + 1,
+                  B + 'go_down#0': dm + 2, B + 'go_down#1': 4, B + 'go_up#0': dm + 1, B + 'go_up#1': 4,
+                  B + 'BMOCBuilderUnsafe::pack#0': dm + 2, B + 'BMOCBuilderUnsafe::pack#1': L + 1, B + 'BMOCBuilderUnsafe::pack#2': L + 1})
+    return u
+
+
+def _bmoc_stubs(mod):
+    B = 'crate::nested::bmoc::'
+    return [(B + 'BMOCBuilderUnsafe::new', B + mod + '::stub_builder_new'),
+            (B + 'BMOCBuilderUnsafe::push', B + mod + '::stub_builder_push'),
+            (B + 'BMOCBuilderUnsafe::push_raw_unsafe', B + mod + '::stub_builder_push_raw')]
+
+
+def _bmoc_cut_pack(mod):
+    B = 'crate::nested::bmoc::'
+    return [(B + 'BMOCBuilderUnsafe::to_bmoc_packing', B + mod + '::stub_to_bmoc_packing')]
+
+
+def _bmoc_h(pid, mode, op, na, nb, dma, dmb, tiers, timeout=1800, mem_gb=12, unwind=3):
+    name = '%s_%s_%d_%d_dm%d%d' % (pid.lower(), _OPN[op], na, nb, dma, dmb)
+    dm = max(dma, dmb) if op else dma
+    return H(name, 'k_bmoc_op(%d, %d, %d, %d, %d, %d);' % (op, mode, na, nb, dma, dmb), tiers=tiers, timeout=timeout, mem_gb=mem_gb,
+             unwind=unwind, unwindset=_bmoc_unwindset(na, nb, dm, op),
+             stubs=_bmoc_stubs('verif_' + pid.lower()) + (_bmoc_cut_pack('verif_' + pid.lower()) if op >= 2 else []),
+             inputs=_ops_inputs('a') + _ops_inputs('b') + [('c', 'u64')], replay='bmoc_op',
+             replay_const={'op': op, 'mode': mode, 'na': na, 'nb': nb, 'a_dm': dma, 'b_dm': dmb},
+             covers=['operands exist'],
+             domain='%s: operands of exactly %d and %d entries (symbolic depth/hash/flag, valid%s), depth_max %d and %d, symbolic probe cell'
+                    % (_OPN[op], na, nb, ', all full, packed' if mode else '', dma, dmb))
+
+
+def _pack_h(pid, n, dm, tiers, timeout=1800, mem_gb=12):
+    B = 'nested::bmoc::'
+    us = {'verif_common::Ops::valid#0': 6, 'verif_common::Ops::packed#0': 6, 'verif_common::Ops::state#0': 6,
+          'verif_common::spec_scan#0': n + 1, B + 'verif_%s::p_pack#0' % pid.lower(): n + 1,
+          B + 'BMOCBuilderUnsafe::pack#0': dm + 2, B + 'BMOCBuilderUnsafe::pack#1': n + 1, B + 'BMOCBuilderUnsafe::pack#2': n + 1}
+    return H('%s_pack_%d_dm%d' % (pid.lower(), n, dm), 'k_pack(%d, %d);' % (n, dm), tiers=tiers, timeout=timeout, mem_gb=mem_gb,
+             unwind=3, unwindset=us, stubs=_bmoc_stubs('verif_' + pid.lower()),
+             inputs=_ops_inputs('a') + [('c', 'u64')], replay='bmoc_pack', replay_const={'na': n, 'a_dm': dm},
+             covers=(['sequence with four full siblings'] if n >= 4 else []),
+             domain='pack: every valid sequence of exactly %d entries (symbolic depth/hash/flag), depth_max %d, symbolic probe cell' % (n, dm))
+
+
+def _bmoc_family(pid, mode):
+    """Operator harnesses: (op, na, nb, dm_a, dm_b, tiers[, timeout, mem])."""
+    L = []
+    shapes = [
+        # and
+        (1, 1, 1, 2, 2, Q), (1, 2, 1, 2, 2, Q), (1, 1, 2, 1, 2, Q), (1, 2, 2, 2, 2, Q),
+        (1, 1, 3, 2, 2, T), (1, 3, 1, 2, 2, T), (1, 2, 2, 2, 1, T), (1, 0, 1, 1, 1, T), (1, 1, 0, 1, 1, T),
+        # not
+        (0, 1, 0, 1, 1, Q), (0, 0, 0, 1, 1, Q), (0, 1, 0, 2, 2, T), (0, 2, 0, 1, 1, T), (0, 2, 0, 2, 2, T), (0, 1, 0, 0, 0, T),
+        # or
+        (2, 1, 1, 1, 1, Q), (2, 1, 1, 2, 2, Q), (2, 1, 1, 1, 2, Q), (2, 1, 0, 1, 1, T), (2, 0, 1, 1, 1, T), (2, 1, 1, 2, 1, T),
+        (2, 1, 2, 1, 1, T, 3600, 40), (2, 2, 1, 1, 1, T, 3600, 40),
+        # xor
+        (3, 1, 1, 1, 1, Q), (3, 1, 1, 2, 2, Q), (3, 1, 1, 2, 1, Q), (3, 1, 0, 1, 1, T), (3, 1, 1, 1, 2, T),
+        (3, 1, 2, 1, 1, T, 3600, 40), (3, 2, 1, 1, 1, T, 3600, 40),
+    ]
+    for sh in shapes:
+        op, na, nb, dma, dmb, tiers = sh[:6]
+        to = sh[6] if len(sh) > 6 else (1200 if tiers is Q else 2400)
+        mem = sh[7] if len(sh) > 7 else 8
+        L.append(_bmoc_h(pid, mode, op, na, nb, dma, dmb, tiers, timeout=to, mem_gb=mem))
+    return L
+
+
+def _pack_h(pid, n, dm, tiers, timeout=1800, mem_gb=8):
+    B = 'nested::bmoc::'
+    us = {'verif_common::Ops::valid#0': 6, 'verif_common::Ops::packed#0': 6, 'verif_common::Ops::state#0': 6,
+          'verif_common::spec_scan#0': n + 1, B + 'verif_%s::p_pack#0' % pid.lower(): n + 1,
+          B + 'BMOCBuilderUnsafe::pack#0': dm + 2, B + 'BMOCBuilderUnsafe::pack#1': n + 1, B + 'BMOCBuilderUnsafe::pack#2': n + 1}
+    return H('%s_pack_%d_dm%d' % (pid.lower(), n, dm), 'k_pack(%d, %d);' % (n, dm), tiers=tiers, timeout=timeout, mem_gb=mem_gb,
+             unwind=3, unwindset=us, stubs=_bmoc_stubs('verif_' + pid.lower()),
+             inputs=_ops_inputs('a') + [('c', 'u64')], replay='bmoc_pack', replay_const={'na': n, 'a_dm': dm},
+             covers=(['sequence with four full siblings'] if n >= 4 else []),
+             domain='pack: every valid sequence of exactly %d entries (symbolic depth/hash/flag), depth_max %d, symbolic probe cell' % (n, dm))
+
+
+def _lower_h(pid, n, dm, nd, packing, tiers, timeout=1800, mem_gb=8):
+    B = 'nested::bmoc::'
+    us = {'verif_common::Ops::valid#0': 6, 'verif_common::Ops::state#0': 6, 'verif_common::spec_scan#0': n + 2,
+          B + 'verif_%s::p_lower#0' % pid.lower(): n + 1, B + 'verif_%s::p_lower#1' % pid.lower(): n + 1,
+          B + 'BMOCBuilderUnsafe::to_lower_depth#0': n + 2, B + 'BMOCBuilderUnsafe::to_lower_depth#1': n + 2,
+          B + 'BMOCBuilderUnsafe::pack#0': dm + 2, B + 'BMOCBuilderUnsafe::pack#1': n + 1, B + 'BMOCBuilderUnsafe::pack#2': n + 1}
+    return H('%s_lower_%d_dm%d_to%d%s' % (pid.lower(), n, dm, nd, '_packing' if packing else ''),
+             'k_lower(%d, %d, %d, %s);' % (n, dm, nd, 'true' if packing else 'false'), tiers=tiers, timeout=timeout, mem_gb=mem_gb,
+             unwind=3, unwindset=us, stubs=_bmoc_stubs('verif_' + pid.lower()),
+             inputs=_ops_inputs('a') + [('c', 'u64')], replay='bmoc_lower',
+             replay_const={'na': n, 'a_dm': dm, 'nd': nd, 'packing': 1 if packing else 0},
+             covers=['cell deeper than the new depth'],
+             domain='to_lower_depth_bmoc%s: every valid sequence of exactly %d entries, depth_max %d -> %d, symbolic probe cell'
+                    % ('_packing' if packing else '', n, dm, nd))
+
+
+def _layout_h(pid, n, dm, tiers):
+    return H('%s_builder_layout_%d_dm%d' % (pid.lower(), n, dm), 'k_bmoc_builder_layout(%d, %d);' % (n, dm), tiers=tiers, timeout=900, mem_gb=8,
+             unwind=n + 2, inputs=_ops_inputs('a'), replay='bmoc_builder_layout', replay_const={'na': n, 'a_dm': dm},
+             covers=['operands exist'],
+             domain='public BMOCBuilderUnsafe (real Vec::push): %d pushes of symbolic (depth, hash, flag), depth_max %d' % (n, dm))
+
+
+_BMOC_FUNCS = ['BMOC::not', 'BMOC::and', 'BMOC::or', 'BMOC::xor', 'BMOC::not_in_cell_4_or', 'BMOC::not_in_cell_4_xor',
+               'consume_while_overlapped', 'consume_while_overlapped_and_partial', 'go_up', 'go_down', 'dd_4_go_up', 'is_in',
+               'Cell::new', 'build_raw_value', 'BMOCIter', 'BMOC::create_unsafe', 'BMOCBuilderUnsafe::{new,push,to_bmoc,to_bmoc_packing,pack}']
+_BMOC_ASSUME = ['allocator-growth model: BMOCBuilderUnsafe::{new,push,push_raw_unsafe} write into a preallocated buffer of 40 entries, '
+                'an assertion reports any overflow of that capacity (harness/kani/c07.rs); the real push is decided by the builder-layout harness',
+                'cut at pack for or/xor: BMOCBuilderUnsafe::to_bmoc_packing is replaced by to_bmoc in the or/xor harnesses; pack is decided '
+                'on arbitrary valid sequences by the pack harnesses (C15)',
+                'operands are placed directly in a boxed slice in the documented raw layout (solver side); natively they are built through the public builder']
+_BMOC_BOUNDS = {
+    'quick': 'depth_max <= 2; operand shapes (entries of a, entries of b): and (1,1),(2,1),(1,2),(2,2); not (0),(1); or / xor (1,1) incl. operands of '
+             'different depth_max; every depth/hash/flag of every entry symbolic; one symbolic probe cell (= all cells of the universe)',
+    'thorough': 'adds and (1,3),(3,1),(0,1),(1,0); not (2) and depth_max 0 / 2; or / xor (1,2),(2,1),(1,0),(0,1)',
+}
+_BMOC_OUT = ('operands with more entries or depth_max > 2; sequences of operator applications (each application is decided from an '
+             'arbitrary valid operand, which covers histories as long as outputs are valid -- asserted on every output)')
+
+PROPS['C08'] = dict(
+    inject=[dict(host='src/nested/bmoc.rs', mod='verif_c08', parts=['props/c07.rs', 'kani/c07.rs'])],
+    harnesses=_bmoc_family('C08', 0),
+    functions=_BMOC_FUNCS, bounds=_BMOC_BOUNDS, outside=_BMOC_OUT, assumptions=_BMOC_ASSUME,
+)
+
+_c07 = _bmoc_family('C07', 1)
+for (idn, nm) in ((1, 'xor_self'),):
+    _c07.append(H('c07_identity_%s_1_dm1' % nm, 'k_bmoc_identity(%d, 1, 1);' % idn, tiers=Q, timeout=1200, mem_gb=8, unwind=3,
+                  unwindset=_bmoc_unwindset(1, 1, 1, 3), stubs=_bmoc_stubs('verif_c07') + _bmoc_cut_pack('verif_c07'),
+                  inputs=_ops_inputs('a'), replay='bmoc_identity', replay_const={'id': idn, 'na': 1, 'a_dm': 1}, covers=['operands exist'],
+                  domain='a xor a on every plain MOC of exactly 1 entry, depth_max 1'))
+_c07.append(H('c07_identity_not_not_1_dm0', 'k_bmoc_identity(0, 1, 0);', tiers=T, timeout=2400, mem_gb=8, unwind=3,
+              unwindset=dict(_bmoc_unwindset(12, 0, 0, 0), **{'nested::bmoc::BMOC::equals#0': 14}), stubs=_bmoc_stubs('verif_c07'),
+              inputs=_ops_inputs('a'), replay='bmoc_identity', replay_const={'id': 0, 'na': 1, 'a_dm': 0}, covers=['operands exist'],
+              domain='not(not(a)) on every plain MOC of exactly 1 base cell, depth_max 0'))
+_c07.append(H('c07_equals_2_2_dm2', 'k_bmoc_equals(2, 2, 2);', tiers=Q, timeout=900, mem_gb=8, unwind=4,
+              inputs=_ops_inputs('a') + _ops_inputs('b') + [('c', 'u64')], replay='bmoc_equals', replay_const={'na': 2, 'nb': 2, 'a_dm': 2, 'b_dm': 2},
+              covers=['equal first entries'], domain='equals on two canonical plain MOCs of 2 entries each, depth_max 2'))
+PROPS['C07'] = dict(
+    inject=[dict(host='src/nested/bmoc.rs', mod='verif_c07', parts=['props/c07.rs', 'kani/c07.rs'])],
+    harnesses=_c07,
+    functions=_BMOC_FUNCS + ['BMOC::equals'], bounds=_BMOC_BOUNDS,
+    outside=_BMOC_OUT + '; canonical form of or/xor outputs = well-formedness (decided here) + pack lemma (C15 harnesses); the identities '
+            'not(not a)=a, De Morgan, a or not(a)=sky follow from the pointwise semantics plus canonical form and are only decided directly for tiny operands',
+    assumptions=_BMOC_ASSUME + ['C07 operands: all cells full and no four full siblings (canonical plain MOCs)'],
+)
+
+_VN = ['iter', 'flat', 'flatcell', 'array', 'ranges']
+
+
+def _views_h(view, n, dm, tiers, timeout=1500, mem_gb=8):
+    ds = n * 4 ** dm                      # largest possible deep size
+    B = 'nested::bmoc::'
+    us = {'verif_common::Ops::valid#0': 6, 'verif_common::Ops::state#0': 6, B + 'verif_c09::c09_deep_size#0': 6,
+          B + 'BMOC::deep_size#0': n + 1, B + 'verif_c09::p_bmoc_views#0': n + 2, B + 'verif_c09::p_bmoc_views#1': ds + 2,
+          B + 'verif_c09::p_bmoc_views#2': ds + 2, B + 'verif_c09::p_bmoc_views#3': n + 2,
+          B + 'BMOC::to_flat_array#0': ds + 2, B + 'BMOC::to_ranges#0': n + 2}
+    return H('c09_views_%s_%d_dm%d' % (_VN[view], n, dm), 'k_bmoc_views(%d, %d, %d);' % (view, n, dm), tiers=tiers, timeout=timeout, mem_gb=mem_gb,
+             unwind=3, unwindset=us, inputs=_ops_inputs('a') + [('c', 'u64'), ('k', 'u32')], replay='bmoc_views',
+             replay_const={'view': view, 'na': n, 'a_dm': dm}, covers=(['an entry above depth_max'] if n else []),
+             domain='view %s of every valid BMOC of exactly %d entries, depth_max %d, symbolic probe cell / index' % (_VN[view], n, dm))
+
+
+_c09 = [_views_h(v, 2, 1, Q) for v in range(5)] + [_views_h(v, 0, 1, Q, timeout=600) for v in (1, 4)] \
+    + [_views_h(v, 1, 2, T, timeout=3000, mem_gb=12) for v in range(5)] + [_views_h(v, 3, 1, T, timeout=3000, mem_gb=12) for v in range(5)] + [
+    _layout_h('C09', 2, 2, Q), _layout_h('C09', 3, 2, T),
+    # operator outputs are well formed: the C08 harnesses assert spec_wf on every output; two of them are re-run here
+    _bmoc_h('C09', 0, 1, 2, 2, 2, 2, Q), _bmoc_h('C09', 0, 0, 1, 0, 1, 1, Q), _bmoc_h('C09', 0, 3, 1, 1, 1, 1, Q),
+]
+PROPS['C09'] = dict(
+    inject=[dict(host='src/nested/bmoc.rs', mod='verif_c09', parts=['props/c07.rs', 'kani/c07.rs', 'props/c09.rs', 'kani/c09.rs'])],
+    harnesses=_c09,
+    functions=['BMOC::{into_iter,flat_iter,flat_iter_cell,to_flat_array,deep_size,to_ranges,from_raw_value}', 'BMOCFlatIter', 'BMOCFlatIterCell',
+               'BMOCIter', 'Cell::new', 'build_raw_value', 'to_range'] + _BMOC_FUNCS[:4],
+    bounds={'quick': 'views: every valid BMOC with (entries, depth_max) in {(0,1),(2,1),(1,2)}; builder layout: 2 pushes; operator outputs: and (2,2), not (1), xor (1,1)',
+            'thorough': 'adds views (3,1),(2,2); builder layout 3 pushes'},
+    outside='outputs of cone / polygon / ellipse queries (their recursion order is not decided here); longer BMOCs; well-formedness of every operator and '
+            'builder output is asserted in the C07 / C08 / C15 harnesses',
+    assumptions=_BMOC_ASSUME,
+)
+
+_c15 = [
+    _pack_h('C15', 4, 1, Q, timeout=1500), _pack_h('C15', 2, 2, Q, timeout=900),
+    _pack_h('C15', 3, 2, T, timeout=2400), _pack_h('C15', 4, 2, T, timeout=3600, mem_gb=16),
+    _lower_h('C15', 2, 2, 1, False, Q), _lower_h('C15', 2, 1, 0, True, Q),
+    _lower_h('C15', 2, 2, 0, False, T), _lower_h('C15', 3, 2, 1, False, T), _lower_h('C15', 2, 2, 1, True, T),
+]
+for (dep, cap, m, tiers) in ((1, 4, 3, Q), (1, 1, 2, Q), (1, 2, 2, Q), (1, 4, 0, Q), (2, 4, 4, T), (1, 1, 3, T), (2, 2, 3, T), (0, 3, 3, T)):
+    B = 'nested::bmoc::'
+    us = dict(_bmoc_unwindset(1, 1, dep, 2))
+    us.update({B + 'BMOCBuilderFixedDepth::buff_to_bmoc#0': m + 1, B + 'BMOCBuilderFixedDepth::largest_lower_cell_sequence_len#0': m + 1,
+               B + 'BMOC::create_unsafe_copying#0': m + 1, B + 'verif_c15::p_fixed_builder#0': 6, B + 'verif_c15::p_fixed_builder#1': 6,
+               B + 'verif_c15::p_fixed_builder#2': 6, 'verif_common::spec_scan#0': m + 8})
+    _c15.append(H('c15_fixed_d%d_cap%d_m%d' % (dep, cap, m), 'k_fixed_builder(%d, %d, %d);' % (dep, cap, m), tiers=tiers,
+                  timeout=1800 if tiers is Q else 3600, mem_gb=10, unwind=m + 2, unwindset=us,
+                  stubs=_bmoc_stubs('verif_c15') + _bmoc_cut_pack('verif_c15'),
+                  inputs=[('is_full', 'bool'), ('p0', 'u64'), ('p1', 'u64'), ('p2', 'u64'), ('p3', 'u64'), ('c', 'u64')],
+                  replay='fixed_builder', replay_const={'depth': dep, 'cap': cap, 'm': m},
+                  covers=(['unsorted pushes', 'duplicate push'] if m >= 2 else []),
+                  domain='BMOCBuilderFixedDepth depth %d, buffer capacity %d, %d pushes of symbolic cell numbers (any order, duplicates), symbolic flag, symbolic probe cell' % (dep, cap, m)))
+PROPS['C15'] = dict(
+    inject=[dict(host='src/nested/bmoc.rs', mod='verif_c15', parts=['props/c07.rs', 'kani/c07.rs', 'props/c09.rs', 'kani/c09.rs'])],
+    harnesses=_c15,
+    functions=['BMOCBuilderFixedDepth::{with_capacity,push,to_bmoc,drain_buffer,buff_to_bmoc,largest_lower_cell_sequence_len,clear_buff}', 'BMOC::or',
+               'BMOCBuilderUnsafe::{pack,to_lower_depth,to_bmoc_packing,to_lower_depth_bmoc,to_lower_depth_bmoc_packing,low_depth_raw_val_at_lower_depth}',
+               'slice::sort_unstable', 'Vec::dedup'],
+    bounds={'quick': 'pack: every valid sequence of 4 entries at depth_max 1 and of 2 entries at depth_max 2; lower depth: 2 entries, 2->1 and 1->0 (packing); '
+                     'fixed-depth builder: depth 1, (capacity, pushes) in {(4,3),(1,2),(2,2),(4,0)}',
+            'thorough': 'pack: 3 and 4 entries at depth_max 2; lower depth: 3 entries, 2->0; fixed-depth builder: up to 4 pushes, capacities 1..4, depths 0..2'},
+    outside='push sequences longer than 4, sequences longer than 4 entries; in the fixed-depth builder harnesses the packing step of `or` is cut (pack is decided by the pack harnesses)',
+    assumptions=_BMOC_ASSUME,
+)
+
+# ------------------------------------------------------------------------------------------- C14
+_c14 = []
+def _c14_add(d, dl, tiers):
+    m = (1 << dl) - 1
+    dom = 'depth %d, delta_depth %d: every cell' % (d, dl)
+    common = dict(tiers=tiers, timeout=1500, mem_gb=8)
+    _c14.append(H('c14_internal_d%d_dd%d' % (d, dl), 'k_c14_internal(%d, %d);' % (d, dl), unwind=max(9, d + dl + 1, m + 2),
+                  inputs=[('hash', 'u64'), ('k', 'u32'), ('k2', 'u32')], replay='c14_internal', replay_const={'depth': d, 'delta': dl},
+                  covers=['last cell of the walk'], domain=dom + ', every position of the walk / of the sorted list', **common))
+    _c14.append(H('c14_parts_d%d_dd%d' % (d, dl), 'k_c14_parts(%d, %d);' % (d, dl), unwind=max(9, d + dl + 1, m + 2),
+                  inputs=[('hash', 'u64'), ('k', 'u32')], replay='c14_parts', replay_const={'depth': d, 'delta': dl},
+                  covers=['last cell of a side'], domain=dom + ', every position of each side', **common))
+    _c14.append(H('c14_external_d%d_dd%d' % (d, dl), 'k_c14_external(%d, %d);' % (d, dl), unwind=max(10, d + dl + 1, 4 * (m + 1) + 6),
+                  inputs=[('hash', 'u64'), ('c', 'u64'), ('k', 'u32')], replay='c14_external', replay_const={'depth': d, 'delta': dl},
+                  covers=['adjacent outside cell in another base cell'], domain=dom + ' x every cell of depth %d' % (d + dl), **common))
+    _c14.append(H('c14_struct_d%d_dd%d' % (d, dl), 'k_c14_struct(%d, %d);' % (d, dl), unwind=max(10, d + dl + 1, 4 * (m + 1) + 6),
+                  inputs=[('hash', 'u64'), ('c', 'u64')], replay='c14_struct', replay_const={'depth': d, 'delta': dl},
+                  covers=['a north corner cell exists'], domain=dom + ' x every cell of depth %d' % (d + dl), **common))
+for _d in (0, 1, 2):
+    for _dl in (1, 2):
+        _c14_add(_d, _dl, Q if (_d, _dl) in ((0, 1), (1, 1), (1, 2)) else T)
+for w in (0, 1, 2):
+    _c14.append(H('c14_guard_%d' % w, 'k_c14_guard(1, 1, %d);' % w, tiers=Q, timeout=300, should_panic=True, unwind=10,
+                  inputs=[('hash', 'u64')], replay='c14_guard', replay_const={'depth': 1, 'delta': 1, 'which': w},
+                  never=['guard bypassed'], domain='depth 1, every cell number >= 48'))
+PROPS['C14'] = dict(
+    inject=[dict(host='src/nested/mod.rs', mod='verif_c14', parts=['props/c14.rs', 'kani/c14.rs'])],
+    harnesses=_c14,
+    functions=['nested::internal_edge', 'nested::internal_edge_sorted', 'nested::external_edge', 'nested::external_edge_sorted',
+               'nested::external_edge_struct', 'Layer::external_edge_generic', 'nested::internal_corner*', 'nested::internal_edge_part*',
+               'edge_cell_direction_from_neighbour', 'direction_from_neighbour', 'ExternalEdge'],
+    bounds={'all': 'TBD'},
+    assumptions=['plane oracle'],
+)
+
+
+# ------------------------------------------------------------------------------------------- C01 / C02 (float: libm contracts)
+_LIBM = [('f64::sin', 'crate::verif_common::sin_stub'), ('f64::cos', 'crate::verif_common::cos_stub'),
+         ('f64::asin', 'crate::verif_common::asin_stub'), ('f64::acos', 'crate::verif_common::acos_stub')]
+_LIBM_ASSUME = ['libm contracts (harness/common/libm.rs): sin, cos, asin, acos return any double satisfying range / sign / symmetry / interval-image '
+                'facts that hold for the true functions within 1 ulp, and are deterministic; validated against the platform libm on every run (replay libm_validate)']
+_CUT = [('crate::nested::Layer::d0h_lh_in_d0c', 'crate::nested::verif_%s::stub_d0h_lh')]
+
+_c01 = []
+for _d in range(30):
+    _c01.append(H('c01_e2e_d%d' % _d, 'k_c01_e2e(%d);' % _d, tiers=Q if _d in (0, 1, 2, 3) else T, timeout=1500 if _d <= 3 else 3600, mem_gb=6,
+                  unwind=3, stubs=_LIBM, inputs=[('lon', 'f64'), ('lat', 'f64')], replay='c01_all_depths',
+                  covers=['north cap, second turn', 'south cap, negative longitude', 'transition latitude', 'north pole'],
+                  domain='depth %d: every double lon in [-25.2, 25.2], every double lat in [-pi/2, pi/2], through the public nested::hash' % _d))
+_c01.append(H('c01_r', 'k_c01_r();', tiers=Q, timeout=2400, mem_gb=8, unwind=3, stubs=_LIBM, inputs=[('lon', 'f64'), ('lat', 'f64')],
+              replay='c01_all_depths', covers=['north cap, second turn', 'south cap, negative longitude', 'equatorial base cell'],
+              domain='real Layer::d0h_lh_in_d0c: every double lon in [-25.2, 25.2] x lat in [-pi/2, pi/2]: guarantee R'))
+_c01.append(H('c01_p', 'k_c01_p();', tiers=Q, timeout=2400, mem_gb=8, unwind=3, stubs=_LIBM, inputs=[('lon', 'f64'), ('lat', 'f64')],
+              replay='c01_all_depths', covers=['equatorial point in a south polar base cell', 'west half of base cell 4', 'south cap, negative longitude'],
+              domain='real Layer::d0h_lh_in_d0c: same domain: placement P against the reference projection within 2^-46 (polar caps: cosines with <= 10 significant bits)'))
+for (lo, hi) in ((0, 0), (1, 8), (9, 16), (17, 29)):
+    _c01.append(H('c01_s_d%d_%d' % (lo, hi), 'k_c01_s(%d, %d);' % (lo, hi), tiers=Q, timeout=1800, mem_gb=8, unwind=max(4, hi + 1),
+                  stubs=[(a, b % 'c01') for a, b in _CUT], inputs=[('depth', 'u8'), ('d0h', 'u8'), ('l', 'f64'), ('h', 'f64')], replay='c01_pullback',
+                  covers=['clamp i == nside', 'negative rounding noise'],
+                  domain='scaling step of hash_v2: depth symbolic in %d..=%d, every interface value (base cell, l, h) satisfying R' % (lo, hi)))
+for _d in (0, 5, 29):
+    _c01.append(H('c01_guard_d%d' % _d, 'k_c01_guard(%d);' % _d, tiers=Q, timeout=600, mem_gb=6, should_panic=True, unwind=3, stubs=_LIBM,
+                  inputs=[('lon', 'f64'), ('lat', 'f64')], replay='c01_guard', replay_const={'depth': _d},
+                  covers=['NaN latitude'], never=['guard bypassed'], domain='depth %d: every lat outside [-pi/2, pi/2] incl. NaN, every lon' % _d))
+PROPS['C01'] = dict(
+    inject=[dict(host='src/nested/mod.rs', mod='verif_c01', parts=['props/c01.rs', 'kani/c01.rs'])],
+    harnesses=_c01, libm=True,
+    functions=['nested::hash', 'Layer::hash', 'Layer::hash_v2', 'Layer::d0h_lh_in_d0c', 'Layer::xpm1_and_q', 'Layer::build_hash_from_parts', 'Layer::build_hash',
+               'ZOrderCurve::ij2h', 'check_lat', 'Layer::new', 'nested::get_or_create'],
+    bounds={'quick': 'lon in [-25.2, 25.2] (about +-8 pi), lat in [-pi/2, pi/2], all doubles; end-to-end totality/range at depths 0..3; lemma R+P on the real '
+                     'base-cell/in-cell computation (depth independent); scaling lemma S for every depth 0..=29 (symbolic per z-order class); guards at depths 0, 5, 29',
+            'thorough': 'end-to-end totality/range at every depth 0..=29'},
+    outside='|lon| > 25.2; positions exactly on a polar facet seam are excluded from the placement lemma P (they are covered by R, by the end-to-end runs and by the native oracle); '
+            'containment is decided as P (placement within 2^-46 projection units, from the same libm values) composed with S (exact floor in the scaled frame)',
+    assumptions=_LIBM_ASSUME + ['assume-guarantee cut at Layer::d0h_lh_in_d0c: lemma R is proved on the real producer (c01_r) and assumed by the consumer harnesses (c01_s_*, c02_*)'],
+)
+
+_c02 = []
+for (lo, hi) in ((0, 0), (1, 7), (8, 8), (9, 15), (16, 16), (17, 28)):
+    _c02.append(H('c02_prefix_d%d_%d' % (lo, hi), 'k_c02_prefix(%d, %d);' % (lo, hi), tiers=Q, timeout=2400, mem_gb=8, unwind=max(4, hi + 2),
+                  stubs=[(a, b % 'c02') for a, b in _CUT], inputs=[('depth', 'u8'), ('d0h', 'u8'), ('l', 'f64'), ('h', 'f64')], replay='c01_pullback',
+                  covers=['reached'],
+                  domain='hash at depth d and d+1 on the same interface value: d symbolic in %d..=%d, every (base cell, l, h) satisfying R' % (lo, hi)))
+_c02.append(H('c02_r', 'k_c01_r();', tiers=Q, timeout=2400, mem_gb=8, unwind=3, stubs=_LIBM, inputs=[('lon', 'f64'), ('lat', 'f64')],
+              replay='c01_all_depths', covers=['north cap, second turn', 'south cap, negative longitude', 'equatorial base cell'],
+              domain='guarantee R of the cut, on the real Layer::d0h_lh_in_d0c (same harness as c01_r)'))
+PROPS['C02'] = dict(
+    inject=[dict(host='src/nested/mod.rs', mod='verif_c02', parts=['props/c01.rs', 'kani/c01.rs'])],
+    harnesses=_c02, libm=True,
+    functions=['Layer::hash_v2 (scaling by exponent-bit addition, clamp)', 'Layer::new (time_half_nside)', 'Layer::build_hash_from_parts', 'Layer::d0h_lh_in_d0c (lemma R)'],
+    bounds={'all': 'all 29 adjacent depth pairs (d, d+1), d symbolic; every finite (l, h) with h+-l < 2+2^-28, incl. -0.0-free / subnormal-free as proved by R; '
+                   'non-adjacent pairs follow by transitivity of the 2-bit shift'},
+    outside='nothing beyond lemma R (decided on the real code by c02_r) and the depth independence of Layer::d0h_lh_in_d0c (by signature: it has no self)',
+    assumptions=_LIBM_ASSUME + ['assume-guarantee cut at Layer::d0h_lh_in_d0c'],
+)
+
+# ------------------------------------------------------------------------------------------- C17
+_c17 = [
+    H('c17_proj', 'k_c17_proj();', tiers=Q, timeout=2400, mem_gb=8, unwind=3, stubs=_LIBM, inputs=[('lon', 'f64'), ('lat', 'f64')], replay='c17_native',
+      covers=['north cap, negative second turn', 'south pole'],
+      domain='proj: every double lon in [-25.2, 25.2] x lat in [-pi/2, pi/2]: range, sign, image facets'),
+    H('c17_proj_ref', 'k_c17_proj_ref();', tiers=Q, timeout=2400, mem_gb=8, unwind=3, stubs=_LIBM, inputs=[('lon', 'f64'), ('lat', 'f64')], replay='c17_native',
+      covers=['polar clause reached (south)'],
+      domain='proj: same domain: agreement with the reference formulae within 2^-46 (polar caps: cosines with <= 10 significant bits)'),
+    H('c17_unproj', 'k_c17_unproj();', tiers=Q, timeout=2400, mem_gb=8, unwind=3, stubs=_LIBM, inputs=[('x', 'f64'), ('y', 'f64')], replay='c17_native_plane',
+      covers=['next to the north pole, negative x', 'south transition'], domain='unproj: every double (x, y) in [-8, 8] x [-2, 2]: range and sign'),
+    H('c17_base_cell', 'k_c17_base_cell();', tiers=Q, timeout=2400, mem_gb=8, unwind=3, inputs=[('x', 'f64'), ('y', 'f64')], replay='c17_base_cell',
+      covers=['north pole', 'corner shared by 4 base cells', 'negative x'],
+      domain='base_cell_from_proj_coo: every double point of the HEALPix image, x in [-8, 8), y in [-2, 2]'),
+    H('c17_guard_proj', 'k_c17_guard(0);', tiers=Q, timeout=600, mem_gb=6, should_panic=True, unwind=3, stubs=_LIBM, inputs=[('a', 'f64'), ('b', 'f64')],
+      replay='c17_guard', replay_const={'which': 0}, never=['guard bypassed'], domain='proj: every lat outside [-pi/2, pi/2] incl. NaN'),
+    H('c17_guard_unproj', 'k_c17_guard(1);', tiers=Q, timeout=600, mem_gb=6, should_panic=True, unwind=3, stubs=_LIBM, inputs=[('a', 'f64'), ('b', 'f64')],
+      replay='c17_guard', replay_const={'which': 1}, never=['guard bypassed'], domain='unproj: every y outside [-2, 2] incl. NaN'),
+]
+PROPS['C17'] = dict(
+    inject=[dict(host='src/lib.rs', mod='verif_c17', parts=['props/c17.rs', 'kani/c17.rs'])],
+    harnesses=_c17, libm=True,
+    functions=['proj', 'unproj', 'abs_sign_decompose', 'pm1_offset_decompose', 'proj_cea', 'proj_collignon', 'deproj_cea', 'deproj_collignon',
+               'apply_offset_and_signs', 'check_lat', 'check_y', 'base_cell_from_proj_coo', 'ensures_x_is_positive'],
+    bounds={'all': 'every double in the stated domains (|lon| <= 25.2); no loops'},
+    outside='the two round trips within 1e-14 are NOT decided by the solver (they depend on the accuracy of the actual libm, not on a contract): they are evaluated '
+            'only by the native oracle when a counter-example is replayed; base_cell_from_proj_coo vs. the depth-0 hash likewise',
+    assumptions=_LIBM_ASSUME,
+)
+
+# ------------------------------------------------------------------------------------------- C06 (discrete clauses)
+_c06 = []
+for (_d, _dl, tiers) in ((0, 0, Q), (3, 0, Q), (29, 0, Q), (0, 1, Q), (2, 2, Q), (27, 2, Q), (1, 0, T), (16, 0, T), (5, 3, T), (28, 1, T), (0, 29, T)):
+    _c06.append(H('c06_allsky_d%d_dd%d' % (_d, _dl), 'k_c06_allsky(%d, %d);' % (_d, _dl), tiers=tiers, timeout=1200, mem_gb=8, unwind=14,
+                  stubs=_LIBM, inputs=[('lon', 'f64'), ('lat', 'f64'), ('r', 'f64')], replay='c06_allsky', replay_const={'depth': _d, 'delta': _dl},
+                  covers=['radius exactly pi', 'infinite radius, NaN centre'],
+                  domain='depth %d, delta_depth %d: every double radius >= pi (incl. +inf), every double centre (incl. NaN)' % (_d, _dl)))
+for (ds, lv, tiers) in ((0, 1, Q), (1, 1, Q), (0, 2, T), (3, 2, T)):
+    B = 'crate::nested::bmoc::'
+    _c06.append(H('c06_recur_d%d_l%d' % (ds, lv), 'k_c06_recur(%d, %d);' % (ds, lv), tiers=tiers, timeout=2400, mem_gb=10, unwind=26,
+                  stubs=[('crate::nested::Layer::center', 'crate::nested::verif_c06::stub_center'),
+                         (B + 'BMOCBuilderUnsafe::new', B + 'verif_c06b::stub_builder_new'), (B + 'BMOCBuilderUnsafe::push', B + 'verif_c06b::stub_builder_push')],
+                  inputs=None, replay=None, covers=['a fully covered cell', 'a partially covered cell at the target depth'],
+                  domain='real cone_coverage_approx_recur from one symbolic root cell of depth %d down %d level(s): arbitrary thresholds min<=max per level, '
+                         'arbitrary distance per visited cell, symbolic probe cell' % (ds, lv)))
+_c06.append(_pack_h('C06', 4, 1, Q, timeout=1500))
+_c06[-1]['mod'] = 'verif_c06b'
+PROPS['C06'] = dict(
+    inject=[dict(host='src/nested/mod.rs', mod='verif_c06', parts=['props/c06.rs', 'kani/c06.rs']),
+            dict(host='src/nested/bmoc.rs', mod='verif_c06b', parts=['props/c07.rs', 'kani/c07.rs'])],
+    harnesses=_c06, libm=True,
+    functions=['nested::cone_coverage_approx', 'nested::cone_coverage_approx_custom', 'Layer::cone_coverage_approx_internal', 'Layer::allsky_bmoc_builder',
+               'Layer::cone_coverage_approx_recur', 'BMOCBuilderUnsafe::{push_all,pack,to_lower_depth,to_bmoc_packing,to_lower_depth_bmoc_packing}'],
+    bounds={'quick': 'whole sky: (depth, delta) in {(0,0),(3,0),(29,0),(0,1),(2,2),(27,2)}, every radius >= pi and every centre; recursion threshold logic: '
+                     'one root, 1 level below depth 0 and depth 1; pack: every valid sequence of 4 entries at depth_max 1',
+            'thorough': 'adds (depth, delta) (1,0),(16,0),(5,3),(28,1),(0,29); recursion 2 levels'},
+    outside='NOT decided (stated in DESIGN.md 5 C06): that `distance <= min` really means "entirely inside the cone" and the radius + 2*c2v tightness -- both need the '
+            'true haversine distance and the centre-to-vertex envelope; the small-cone branch (centre cell + neighbours)',
+    assumptions=_LIBM_ASSUME + ['recursion harness: Layer::center replaced by a recorder, distances are arbitrary values in [0, 1] (one per visited cell)',
+                                'allocator-growth model for the BMOC builder (see C07)'],
+)
+
+# ------------------------------------------------------------------------------------------- C11 (RING, any nside; plane cut)
+_PLANE_CUT = lambda mod: [('crate::proj', 'crate::ring::%s::stub_proj' % mod), ('crate::unproj', 'crate::ring::%s::stub_unproj' % mod)]
+_c11 = []
+for ns in (1, 2, 3, 4, 5, 6, 7, 8, 13, 100, 1000003, (1 << 29) - 1, 1 << 29):
+    small = ns <= 13
+    tq = Q if ns in (1, 2, 3, 5) else T
+    _c11.append(H('c11_point_n%d' % ns, 'k_c11_point(%d);' % ns, tiers=tq, timeout=2400, mem_gb=8, unwind=3, stubs=_PLANE_CUT('verif_c11'),
+                  inputs=[('x', 'f64'), ('y', 'f64')], replay='c11_pullback', replay_const={'nside': ns},
+                  covers=['polar cap, on the seam lon = pi/2', 'north pole', 'south cap next to lon = 2 pi'],
+                  domain='nside %d: every double point of the HEALPix image (x in [-8, 8], y in [-2, 2])' % ns))
+    if small or ns == 100:
+        _c11.append(H('c11_center_n%d' % ns, 'k_c11_center(%d);' % ns, tiers=tq, timeout=2400, mem_gb=8, unwind=3, stubs=_PLANE_CUT('verif_c11'),
+                      inputs=[('h', 'u64')], replay='c11_center', replay_const={'nside': ns}, covers=['last cell'],
+                      domain='nside %d: every cell number' % ns))
+    _c11.append(H('c11_order_n%d' % ns, 'k_c11_order(%d);' % ns, tiers=(tq if small else T), timeout=2400, mem_gb=8, unwind=3,
+                  inputs=[('r', 'u64')], replay='c11_order', replay_const={'nside': ns}, covers=['last pair'],
+                  domain='nside %d: every pair of consecutive cell numbers' % ns))
+for w in (0, 1, 2, 3):
+    _c11.append(H('c11_guard_%d' % w, 'k_c11_guard(3, %d);' % w, tiers=Q, timeout=600, mem_gb=6, should_panic=True, unwind=3, stubs=_LIBM,
+                  inputs=[('h', 'u64'), ('lon', 'f64'), ('lat', 'f64')], replay='c11_guard', replay_const={'nside': 3, 'which': w},
+                  never=['guard bypassed'], domain='nside 3: every out-of-range cell number / latitude'))
+PROPS['C11'] = dict(
+    inject=[dict(host='src/ring/mod.rs', mod='verif_c11', parts=['props/c17.rs', 'props/c11.rs', 'kani/c11.rs'])],
+    harnesses=_c11, libm=True,
+    functions=['ring::hash', 'ring::hash_with_dxdy', 'ring::hash_with_dldh', 'ring::deal_with_1x1_box', 'ring::dldh_to_dxdy', 'ring::center_of_projected_cell',
+               'ring::polar_cap_ring_index', 'ring::sph_coo', 'ring::center', 'ring::vertices', 'ring::check_hash', 'ring::triangular_number_x4'],
+    bounds={'quick': 'nside in {1, 2, 3, 5}: every image point (range, offsets, containment), every cell (centre round trip, sph_coo), every consecutive pair (order); guards at nside 3',
+            'thorough': 'adds nside in {4, 6, 7, 8, 13, 100, 1000003, 2^29-1, 2^29} (harnesses that exceed the cap make the check exit 2)'},
+    outside='other nside values; the composition with the real proj / unproj (the plane cut): decided separately in C17 (image, reference formulae) and evaluated by the native oracle on replay',
+    assumptions=_LIBM_ASSUME + ['plane cut: proj returns an arbitrary point of the HEALPix image (guarantee I of C17, slack 2^-50), unproj is the identity on the plane with its domain assertion kept'],
+)
+
+# ------------------------------------------------------------------------------------------- C03 (plane cut)
+_PLANE_CUT_N = lambda mod: [('crate::proj', 'crate::nested::%s::stub_proj' % mod), ('crate::unproj', 'crate::nested::%s::stub_unproj' % mod)]
+_c03 = []
+for _d in range(30):
+    tq = Q if _d in (0, 1, 2, 29) else T
+    _c03.append(H('c03_cell_d%d' % _d, 'k_c03_cell(%d);' % _d, tiers=tq, timeout=2400, mem_gb=8, unwind=max(5, _d + 1), stubs=_PLANE_CUT_N('verif_c03'),
+                  inputs=[('h', 'u64'), ('dxk', 'u32'), ('dyk', 'u32')], replay='c03_cell', replay_const={'depth': _d}, covers=['cell at the north pole'],
+                  domain='depth %d: every cell, offsets k/1024 with k symbolic in 1..=1023 (plane cut)' % _d))
+    _c03.append(H('c03_path_d%d' % _d, 'k_c03_path(%d);' % _d, tiers=Q if _d in (0, 2, 29) else T, timeout=2400, mem_gb=8, unwind=max(5, _d + 1),
+                  stubs=_PLANE_CUT_N('verif_c03'), inputs=[('h', 'u64'), ('t', 'usize'), ('cw', 'bool'), ('sk', 'u8')], replay='c03_cell',
+                  replay_const={'depth': _d, 'dxk': 512, 'dyk': 512}, covers=['last grid point', 'first path point, clockwise'],
+                  domain='depth %d: every cell, every point of the 12-point edge path (both directions, 4 starting vertices) and of the 3x3 grid' % _d))
+    _c03.append(H('c03_image_d%d' % _d, 'k_c03_image(%d);' % _d, tiers=Q if _d in (0, 1, 2) else T, timeout=2400, mem_gb=8, unwind=max(5, _d + 1),
+                  stubs=_PLANE_CUT_N('verif_c03'), inputs=[('x', 'f64'), ('y', 'f64')], replay='c03_pullback', replay_const={'depth': _d},
+                  covers=['north pole', 'on a polar seam', 'x = 8'],
+                  domain='depth %d: every double point of the HEALPix image (x in [0, 8], y in [-2, 2])' % _d))
+for w in range(9):
+    _c03.append(H('c03_guard_%d' % w, 'k_c03_guard(2, %d);' % w, tiers=Q, timeout=600, mem_gb=6, should_panic=True, unwind=5, stubs=_LIBM,
+                  inputs=[('h', 'u64')], replay='c03_guard', replay_const={'depth': 2, 'which': w}, never=['guard bypassed'],
+                  domain='depth 2: every cell number >= 192, accessor %d' % w))
+PROPS['C03'] = dict(
+    inject=[dict(host='src/nested/mod.rs', mod='verif_c03', parts=['props/c03.rs', 'kani/c03.rs'])],
+    harnesses=_c03, libm=True,
+    functions=['Layer::center_of_projected_cell', 'Layer::center', 'Layer::sph_coo', 'Layer::vertex', 'Layer::vertices', 'Layer::vertices_map',
+               'Layer::path_along_cell_side', 'Layer::path_along_cell_edge', 'Layer::grid', 'Layer::hash_with_dxdy', 'Layer::shift_rotate_scale',
+               'discretize', 'Layer::depth0_bits', 'Layer::build_hash', 'Layer::check_hash'],
+    bounds={'quick': 'cells / offsets at depths 0, 1, 2, 29; paths and grid at depths 0, 2, 29 (3 segments per side, 3x3 grid); image totality / containment / inverse at depths 0, 1, 2; guards at depth 2',
+            'thorough': 'every depth 0..=29'},
+    outside='the composition with the real proj / unproj within ulps of a cell border and the 1e-13 rad figure near the poles (they depend on the actual libm values; C17 bounds the pair '
+            'separately); the clause "the cell given by hash" (hash_v2 vs hash_with_dxdy) is evaluated by the native oracle on replay only; other path segment counts',
+    assumptions=_LIBM_ASSUME + ['plane cut: proj returns an arbitrary point of the HEALPix image (guarantee I of C17, slack 2^-50), unproj is the identity on the plane with its domain assertion kept'],
+)
+
+# ------------------------------------------------------------------------------------------- C19 (plane cut)
+_c19 = []
+for _d in range(30):
+    for reg in (0, 1):
+        tq = Q if (_d in (0, 1, 2) and reg == 0) or (_d in (0, 1, 3) and reg == 1) else T
+        _c19.append(H('c19_%s_d%d' % ('any' if reg == 0 else 'corner', _d), 'k_c19_point(%d, %d);' % (_d, reg), tiers=tq, timeout=2400, mem_gb=8,
+                      unwind=max(9, _d + 1), stubs=_PLANE_CUT_N('verif_c19'), inputs=[('x', 'f64'), ('y', 'f64')], replay='c19_pullback',
+                      replay_const={'depth': _d}, covers=['north quadrant', 'west quadrant'],
+                      domain='depth %d: every double point of the HEALPix image%s' % (_d, '' if reg == 0 else ' whose cell lacks a S / E / N / W neighbour')))
+PROPS['C19'] = dict(
+    inject=[dict(host='src/nested/mod.rs', mod='verif_c19', parts=['props/c19.rs', 'kani/c19.rs'])],
+    harnesses=_c19, libm=True,
+    functions=['Layer::bilinear_interpolation', 'Layer::hash_with_dxdy', 'Layer::neighbours', 'MainWindMap::get'],
+    bounds={'quick': 'every image point at depths 0, 1, 2; the cells lacking a cardinal neighbour at depths 0, 1, 3', 'thorough': 'every depth 0..=29'},
+    outside='the composition with the real proj (plane cut, see C17 / C03); the hash_with_dxdy range facts are assumed here and decided by the C03 image harness',
+    assumptions=_LIBM_ASSUME + ['plane cut as in C03', 'hash_with_dxdy returns a cell in range and offsets in [0, 1] (decided by C03)'],
+)
